@@ -399,3 +399,34 @@ def controls(pctx, rep):
     r2 = Report("ctl")
     floats(F, r2, bodies=[b for b in F.bodies.values() if b.short.startswith("float_")])
     rep.control("R2:to_f64", any("float_conv" in v["key"] for v in r2.violations), "posctl::float_conv")
+    # the Typst reader and the template rules on a known snippet: a raw figure, a figure through the wrong formatter and a
+    # both-ended trim must be reported, the well-formed twin must not
+    import pdfrules, typst as T
+    GOOD = ('#let fx(value, digits: 2) = str(calc.round(value, digits: digits))\n'
+            '#let money(value) = {\n  let sign = if value < 0 { "-" } else { "" }\n  sign + "£" + fx(calc.abs(value), digits: 2)\n}\n'
+            '#let qty(value) = fx(value, digits: 6)\n'
+            '#for row in data.rows [ #money(row.total_gain) #qty(row.quantity) #if row.total_gain >= 0 [up] ]\n')
+    BAD = GOOD.replace("#money(row.total_gain)", "#str(row.total_gain)").replace("#qty(row.quantity)", "#money(row.quantity)")
+    table = {"total_gain": {"decimal"}, "quantity": {"decimal"}}
+
+    def judge(src):
+        tpl = pdfrules.Template.__new__(pdfrules.Template)
+        tpl.src = src
+        tpl.nodes = T.parse(src)
+        tpl.fns = T.functions(tpl.nodes)
+        tpl.values = {k: T.value_of(body) for k, (params, body) in tpl.fns.items()}
+        tpl.roles = {}
+        tpl._roles()
+        tpl.currency_dicts = set()
+        r = pdfrules.Render(tpl, table, None)
+        for n in tpl.nodes:
+            r.judge(n, {}, None, "document")
+        return tpl, r
+    try:
+        tg, rg = judge(GOOD)
+        tb_, rb = judge(BAD)
+        ok = (not rg.bad and rg.n_fmt == 2 and tg.roles.get("MONEY") == ["money"] and tg.roles.get("QTY") == ["qty"]
+              and len(rb.bad) == 2 and {w[2] for w in rb.bad} == {"money", "shares"})
+        rep.control("R10:typst-reader", ok, f"template control: good twin {len(rg.bad)} reports / {rg.n_fmt} formatter calls, bad twin {[(w[1], w[3][:30]) for w in rb.bad]}")
+    except Exception as e:
+        rep.control("R10:typst-reader", False, f"Typst reader failed on the control snippet: {e!r}")
